@@ -146,7 +146,7 @@ func (a ans) coq() string {
 		httpAns(a.RefreshStatus), rb, httpAns(a.ValidateStatus), httpAns(a.ProfileStatus), pb)
 }
 
-var statusPool = []int{401, 429, 503, 500, 0, 403, 404, 502}
+var statusPool = []int{401, 429, 503, 500, 0, 403, 404, 502, 504, 505, 511, 599, 408, 418}
 
 func genAns(r *c.Rng, pOK float64) ans {
 	a := ans{RefreshStatus: 201, RefreshTok: "at2", RefreshDur: []int64{1800, 7200, 1800, 7200, 0, -60, 1000000000}[r.Intn(7)], ValidateStatus: 200, ProfileStatus: 200,
@@ -821,6 +821,12 @@ func history(r *c.Rng, auth *c.FakeAuth, worlds []*world, linear bool, maxLen in
 				if shape == 7 {
 					a.RefreshStatus = []int{401, 403, 500}[r.Intn(3)]
 				}
+			case 10: // statuses NEXT to the two that mean "unavailable": 504 from a load balancer, 502, 500, 408 get no grace
+				st2 := []int{504, 502, 500, 505, 511, 408, 428}[r.Intn(7)]
+				a.RefreshStatus, a.ValidateStatus, a.ProfileStatus = st2, st2, 200
+				if r.Chance(0.4) {
+					a.RefreshStatus, a.ValidateStatus, a.ProfileStatus = 201, 200, st2
+				}
 			case 8: // connections reset (no HTTP answer at all): a transport error is not an "unavailable" answer
 				a.RefreshStatus, a.ValidateStatus, a.ProfileStatus = 0, 0, 200
 			case 9: // only the group lookup's connection is reset
@@ -833,7 +839,7 @@ func history(r *c.Rng, auth *c.FakeAuth, worlds []*world, linear bool, maxLen in
 			a = genAns(r, pOK)
 			if r.Chance(0.15) {
 				outage = 1 + r.Intn(4)
-				shape = r.Intn(10)
+				shape = r.Intn(11)
 				outSt = []int{429, 503}[r.Intn(2)]
 				if shape >= 3 && shape <= 5 {
 					outage = 3 + r.Intn(6)
